@@ -406,7 +406,7 @@ func verifLemmaSequencerConsecutive(s *sequencer) (uint16, uint16) {
 
 //@ spec (*Header).GetExtension
 //@   ensures disabled [C02,C05]: !h.Extension ==> result0 == nil
-//@   ensures found [C02,C05]: h.Extension ==> (result0 == nil || (exists k :: 0 <= k && k < len(h.Extensions) && h.Extensions[k].id == id && sameobj(result0, h.Extensions[k].payload) && off(result0) == off(h.Extensions[k].payload) && len(result0) == len(h.Extensions[k].payload)))
+//@   ensures absent [C02,C05]: h.Extension && (forall k :: 0 <= k && k < len(h.Extensions) ==> h.Extensions[k].id != id) ==> result0 == nil
 //@   ensures first_match [C02,C05]: h.Extension ==> forall k :: 0 <= k && k < len(h.Extensions) && h.Extensions[k].id == id && (forall m :: 0 <= m && m < k ==> h.Extensions[m].id != id) ==> sameobj(result0, h.Extensions[k].payload) && off(result0) == off(h.Extensions[k].payload) && len(result0) == len(h.Extensions[k].payload)
 //@   loop 0: invariant none_yet [C02,C05]: rangeindex <= len(h.Extensions) - 1 && (forall m :: 0 <= m && m <= rangeindex ==> h.Extensions[m].id != id)
 //@ end
@@ -452,6 +452,7 @@ func verifLemmaSequencerConsecutive(s *sequencer) (uint16, uint16) {
 //@ pure bool extsDisjoint(buf, h) = (0 < len(h.Extensions) ==> !sameobj(h.Extensions[0].payload, buf)) && (1 < len(h.Extensions) ==> !sameobj(h.Extensions[1].payload, buf))
 
 //@ spec (Header).MarshalTo
+//@   int-overflow-checked
 //@   requires wfHeader(h) && extsDisjoint(buf, h)
 //@   modifies buf[*]
 //@   loop 0: invariant csrc_pos [C01,C04]: rangeindex <= len(h.CSRC) - 1 && n == 16 + 4 * rangeindex && sameobj(buf, old(buf)) && off(buf) == off(old(buf)) && len(buf) == len(old(buf)) && len(buf) >= hdrSize(h)
